@@ -15,8 +15,8 @@ ASSUMPTIONS = [
     "model Exec/Spec.v (tied to /repo by C02's correspondence, repeated here on every executed case)",
     "validate()==[] => well_typed is checked on every generated document and mutant; the converse (model more "
     "permissive than validation) is counted, not a violation",
-    "the soundness theorem needs `well_typed_strict` (one response key = one field document-wide) instead of "
-    "OverlappingFieldsCanBeMerged; documents outside that hypothesis are covered by the run-time checks only",
+    "OverlappingFieldsCanBeMerged is modelled by the part execution relies on (same response key on one runtime "
+    "object type => same field name, recursively through merged sub-selections)",
     "attribution of an error to the data: the value found in the data graph at the error path is a raising resolver, a "
     "null/absent value at a non-null type, a non-list at a list type, an unserialisable leaf, or an object whose "
     "__typename is not a possible type",
@@ -186,8 +186,8 @@ def run_schema(ck, m, rng, n_docs, max_depth):
     flags = m.run_batch([[2] + it["payload"] for it in items])
     to_exec = []
     for it, fl in zip(items, flags):
-        wt, strict, sok, req_ok, conf, nonull = fl
-        it.update(wt=wt, strict=strict, req_ok=req_ok, conf=conf, nonull=nonull)
+        wt, wt_at, sok, req_ok, conf = fl
+        it.update(wt=wt, wt_at=wt_at, req_ok=req_ok, conf=conf)
         kind = "mutant" if it["mutant"] else "generated"
         key = ("typing", sdl, it["text"])
         kid = "typing:" + common.hashlib.blake2b(repr(key).encode("utf-8", "surrogatepass"), digest_size=8).hexdigest()
@@ -208,7 +208,6 @@ def run_schema(ck, m, rng, n_docs, max_depth):
                 ck.extra.setdefault("incompleteness_reasons", {})
                 ck.extra["incompleteness_reasons"][r] = ck.extra["incompleteness_reasons"].get(r, 0) + 1
             continue
-        ck.count("accepted_strict" if strict else "accepted_not_strict")
         to_exec.append(it)
     # execution of the accepted documents
     shape_wires, shape_items = [], []
@@ -232,7 +231,7 @@ def run_schema(ck, m, rng, n_docs, max_depth):
         kid = "exec:" + common.hashlib.blake2b(repr(key).encode("utf-8", "surrogatepass"), digest_size=8).hexdigest()
         rep = {"sdl": sdl, "document": it["text"], "variables": it["variables"],
                "data": G.data_to_jsonable(it["data"]), "mutant": it["mutant"],
-               "flags": {k: it[k] for k in ("wt", "strict", "req_ok", "conf", "nonull")},
+               "flags": {k: it[k] for k in ("wt", "wt_at", "req_ok", "conf")},
                "impl": repr({k: v for k, v in r.items() if k not in ("raw", "fields")})[:3000], "model": repr(model)[:2000]}
         if r["kind"] == "request-error":
             ck.count("variables_rejected")
@@ -251,7 +250,9 @@ def run_schema(ck, m, rng, n_docs, max_depth):
         # the execution model must agree (C02's relation; a disagreement voids the transfer of the theorem)
         if model["kind"] != "response" or model["data"] != r["data"] or model["errors"] != r["errors"]:
             ck.violation(kid + ":model", "response differs from the specification model (see C02)", rep)
-        deferred = not it["nonull"]
+        # the spec-deferred case: statically well typed, but a nullable variable that is null sits in a
+        # non-null position (well_typed_at the coerced variables = false)
+        deferred = bool(it["wt"]) and it["wt_at"] == 0
         nerr = len(r["errors"])
         if it["conforming_gen"] and not it["conf"]:
             ck.count("generator_data_not_conforming")
@@ -261,7 +262,7 @@ def run_schema(ck, m, rng, n_docs, max_depth):
                 ck.count("deferred_case(null in nullable variable)")
                 ck.count("deferred_case_with_errors" if nerr else "deferred_case_without_errors")
             else:
-                ck.count("theorem_hypotheses_hold" if it["strict"] else "theorem_hypotheses_fail(not strict)")
+                ck.count("theorem_hypotheses_hold")
                 if nerr:
                     ck.violation(kid, "a validated document reports errors on conforming data: "
                                  + "; ".join(r["messages"][:2]), rep)
@@ -340,7 +341,7 @@ def replay(path):
     variables = c.get("variables") or {}
     payload = G.flatten(G.W(100, [], [G.enc_schema(schema), G.enc_doc(doc), G.enc_vars(variables), G.enc_data(data)]))
     m = Model("exec")
-    print("model flags [well_typed, strict, schema_ok, vars_ok, conforms, no_null_var]:", m.run_batch([[2] + payload])[0])
+    print("model flags [well_typed, well_typed_at(vars), schema_ok, vars_ok, conforms]:", m.run_batch([[2] + payload])[0])
     if data is not None:
         r = G.run_impl(schema, doc, data, variables)
         print("impl:", {k: v for k, v in r.items() if k not in ("raw", "fields")})
